@@ -14,8 +14,10 @@ def run(tier):
     rnd = random.Random(vlib.seed())
     if tier == "quick":
         # all v4 cases without X-Real-IP + a seeded sample of the rest
-        core = [c for c in ip if c["family"] == "v4" and c["xri"] == "absent"]
-        rest = [c for c in ip if not (c["family"] == "v4" and c["xri"] == "absent")]
+        nest = lambda c: c["malformed"] == "none" and c["xff"] == "absent" and c["xri"] == "absent" and \
+            all(n["p"] == 0 or (n["p"], n["len"]) == (1, 1) for n in c["allow"] + c["deny"])
+        core = [c for c in ip if (c["family"] == "v4" and c["xri"] == "absent") or c["rev"] or nest(c)]
+        rest = [c for c in ip if not ((c["family"] == "v4" and c["xri"] == "absent") or c["rev"] or nest(c))]
         ip = core + rnd.sample(rest, 20000)
         chk.cov["exhaustive"] = False
     else:
